@@ -256,6 +256,16 @@ WaitCancelled ==
        ELSE Return(RetErr(CtxErr))
   /\ UNCHANGED <<cfg, tbl, ctx, h, ph, tok, ci, run>>
 
+\* a cancellation that arrives from outside while the run waits between two attempts (a timer, another goroutine).  For
+\* the callbacks it is indistinguishable from the failed attempt cancelling the context as its last act, and the history
+\* records it there (the last event is that attempt's: nothing is logged between a failed attempt and the wait).  How
+\* promptly the wait ends is the timed specification's business (FlytRetryTimed), what happens afterwards is this one's.
+CancelDuringWait ==
+  /\ cfg.cancel /\ InRun("wait") /\ ctx = "live" /\ h # <<>> /\ h[Len(h)].ev = "exec"
+  /\ ctx' = "done"
+  /\ h' = [h EXCEPT ![Len(h)].cancel = TRUE]
+  /\ UNCHANGED <<cfg, tbl, stack, ret, ph, tok, ci, run>>
+
 \* after an attempt: success leaves the loop, failure goes round again (:734-737)
 AfterAttempt(f, ok, v, e) ==
   IF ok THEN [f EXCEPT !.pc = "after", !.xv = v, !.xe = NoErr, !.att = f.att + 1]
@@ -401,7 +411,7 @@ Callback ==
   \/ \E o \in FbOuts(Top.n)   : FbCb(o)
   \/ \E o \in PostOuts(Top.n) : PostCb(o)
 
-Next == Connect \/ ConnectInRun \/ StartRun \/ Internal \/ (ph = "running" /\ stack # <<>> /\ Top.t = "run" /\ (Callback \/ CallbackPanic)) \/ Finish
+Next == Connect \/ ConnectInRun \/ StartRun \/ Internal \/ CancelDuringWait \/ (ph = "running" /\ stack # <<>> /\ Top.t = "run" /\ (Callback \/ CallbackPanic)) \/ Finish
 
 (* ---------------------------------------------------------------------- *)
 (* design-level invariants (state predicates, independent of h)           *)
